@@ -69,11 +69,11 @@ Subscribed(k) == {c \in Clients : k \in subs[c]}
 \* and subscribers are served by the apply exactly as without an echo
 Publish(k, v, ty, echo) ==
     LET exists == k \in DOMAIN cache
-        same == exists /\ cache[k].content = v
+        same == exists /\ cache[k].content = v /\ ~cache[k].tmp
         nty == IF ty = "" THEN (IF exists THEN cache[k].ctype ELSE "") ELSE ty
         oldh == IF exists THEN cache[k].hist ELSE <<>>
         newv == IF same THEN [cache[k] EXCEPT !.ctype = nty]       \* same md5: only the type is updated
-                ELSE [content |-> v, ctype |-> nty,
+                ELSE [content |-> v, ctype |-> nty, tmp |-> FALSE, listed |-> TRUE,
                       hist |-> TailTo(Append(oldh, [id |-> nextHid, content |-> v]), HistMax)]
         allw == IF same THEN {} ELSE Waiting(k)
         woken == IF Bug_WakeOnlyOldest /\ allw # {}
@@ -111,10 +111,28 @@ Remove(k) ==
 \* full-value import (transfer / snapshot): replaces value and history, no notification
 Import(k, v) ==
     /\ ~WithListeners
-    /\ cache' = Put(cache, k, [content |-> v, ctype |-> "", hist |-> <<[id |-> nextHid, content |-> v]>>])
+    /\ cache' = Put(cache, k, [content |-> v, ctype |-> "", tmp |-> FALSE, listed |-> TRUE, hist |-> <<[id |-> nextHid, content |-> v]>>])
     /\ nextHid' = nextHid + 1
     /\ UNCHANGED <<pend, subs, now, usedL>>
     /\ Step([op |-> "import", key |-> KeyStr(k), k |-> k, v |-> v, hid |-> nextHid,
+             answered |-> {}, notify |-> <<>>,
+             obs |-> [cache |-> [ks \in {KeyStr(x) : x \in DOMAIN cache'} |->
+                                     LET kk == CHOOSE x \in DOMAIN cache' : KeyStr(x) = ks IN cache'[kk]],
+                      pending |-> Obs.pending, subs |-> Obs.subs]])
+
+\* the echo ALONE (ConfigCmd::SetTmpValue on the node that routed a publish; the committed entry - or a snapshot
+\* that already contains it, or an import of the key - arrives later as a step of its own): the value is served by
+\* a read at once, it is temporary (no history entry, and a key that is new to this node is not listed yet); an
+\* echo of the content the node already serves changes nothing.  No listener is woken by it (as coded; C10 does
+\* not judge it), so it belongs to the store alphabet only.
+Echo(k, v) ==
+    /\ ~WithListeners
+    /\ cache' = IF k \in DOMAIN cache
+                THEN IF cache[k].content = v /\ ~cache[k].tmp THEN cache
+                     ELSE Put(cache, k, [cache[k] EXCEPT !.content = v, !.tmp = TRUE])
+                ELSE Put(cache, k, [content |-> v, ctype |-> "", tmp |-> TRUE, listed |-> FALSE, hist |-> <<>>])
+    /\ UNCHANGED <<pend, subs, now, nextHid, usedL>>
+    /\ Step([op |-> "echo", key |-> KeyStr(k), k |-> k, v |-> v,
              answered |-> {}, notify |-> <<>>,
              obs |-> [cache |-> [ks \in {KeyStr(x) : x \in DOMAIN cache'} |->
                                      LET kk == CHOOSE x \in DOMAIN cache' : KeyStr(x) = ks IN cache'[kk]],
@@ -186,6 +204,7 @@ Next ==
     \/ \E k \in Keys, v \in Contents : WithListeners /\ Publish(k, v, "", TRUE)
     \/ \E k \in Keys : Remove(k)
     \/ \E k \in Keys, v \in Contents : Import(k, v)
+    \/ \E k \in Keys, v \in Contents : Echo(k, v)
     \/ \E l \in Lids, items \in ItemSets, dt \in {0, 1, 100} : Listen(l, items, dt)
     \/ Tick
     \/ \E c \in Clients, items \in ItemSets : Subscribe(c, items)
@@ -196,9 +215,11 @@ Spec == Init /\ [][Next]_vars
 
 \* ------------------------------------------------------------------ C09 properties
 \* the listing of a tenant = the stored keys of that tenant, ordered by (group, dataId); pages are slices of it
-HistoryBounded == \A k \in DOMAIN cache : Len(cache[k].hist) <= HistMax /\ Len(cache[k].hist) >= 1
+HistoryBounded == \A k \in DOMAIN cache : Len(cache[k].hist) <= HistMax /\ (Len(cache[k].hist) >= 1 \/ ~cache[k].listed)
+\* a key is listed as soon as a committed write (publish, import) of it was applied, and only then
+ListedIffCommitted == \A k \in DOMAIN cache : cache[k].listed <=> Len(cache[k].hist) >= 1
 \* the newest history entry is the served content (last write wins and is recorded)
-HistoryEndsWithContent == \A k \in DOMAIN cache : cache[k].hist[Len(cache[k].hist)].content = cache[k].content
+HistoryEndsWithContent == \A k \in DOMAIN cache : cache[k].tmp \/ cache[k].hist[Len(cache[k].hist)].content = cache[k].content
 HistoryIdsIncrease == \A k \in DOMAIN cache : \A i \in 1..(Len(cache[k].hist) - 1) : cache[k].hist[i].id < cache[k].hist[i + 1].id
 \* consecutive history entries differ in content (one entry per publish that CHANGED the content)
 HistoryOnlyChanges == \A k \in DOMAIN cache : \A i \in 1..(Len(cache[k].hist) - 1) :
